@@ -66,6 +66,19 @@ def one(ctx, R, tag, loc):
     ref = (L @ F).flatten()
     got = np.array([alg.unfold_all(lift(c)) for c in res[:9]], dtype=object) if isinstance(res, np.ndarray) else res
     ident_arr(ctx, "C06.rhs", tag, got, ref, loc, what="dF/dt block")
+    # the same on every data-dependent early return of the right-hand side met in that evaluation (vanishing strain rate ...): whatever
+    # happens to the texture there, the deformation gradient still follows L.F
+    seen = set()
+    for g, o, gl, fn in (R.rhs_conditions[0][0] if R.rhs_conditions else []):
+        if fn.endswith("eval_rhs") and o[0] == "return" and gl not in seen:
+            seen.add(gl)
+            v = o[1]
+            etag = f"{tag}:early return at {gl.split(':')[-1]}"
+            if not (isinstance(v, np.ndarray) and v.shape == y.shape):
+                ctx.ob("C06.rhs", etag, False, f"the early return hands the solver {type(v).__name__} of shape {getattr(v, 'shape', None)}, the state has {y.shape}", gl)
+                continue
+            gotv = np.array([alg.unfold_all(lift(c)) for c in v[:9]], dtype=object)
+            ident_arr(ctx, "C06.rhs", etag, gotv, ref, gl, what="dF/dt block on the early return")
     s = R.solver
     ok = lift(s.attrs["t0"]) == R.t0 and lift(s.attrs["t_bound"]) == R.t1 and all(lift(a) == lift(b) for a, b in zip(s.attrs["y0"][:9], R.F0.flat))
     ctx.ob("C06.wiring", tag + ":start", ok, f"t0={s.attrs['t0']!r} t_bound={s.attrs['t_bound']!r} y0[:9]={list(s.attrs['y0'][:9])}"[:200], loc)
